@@ -236,10 +236,17 @@ fn build_intent<'b, 'r, 'c, 's:'c, 'm:'c>(rules_with_context: &'r mut SpeechRule
                 intent.set_attribute_value(INTENT_PROPERTY, &properties);
             } else {
                 let saved_intent = mathml.attribute_value(INTENT_ATTR).unwrap();
+                let saved_property = mathml.attribute_value(INTENT_PROPERTY);
                 mathml.remove_attribute(INTENT_ATTR);
                 mathml.set_attribute_value(INTENT_PROPERTY, &properties);   // needs to be set before the pattern match
-                intent = rules_with_context.match_pattern::<Element<'m>>(mathml)?;
+                let matched = rules_with_context.match_pattern::<Element<'m>>(mathml);
+                // 'mathml' is (part of) the stored expression: leave it as it was, also when the match failed
                 mathml.set_attribute_value(INTENT_ATTR, saved_intent);
+                match saved_property {
+                    Some(value) => {mathml.set_attribute_value(INTENT_PROPERTY, value);},
+                    None => {mathml.remove_attribute(INTENT_PROPERTY);},
+                }
+                intent = matched?;
             }
             return Ok(intent);      // if we start with properties, then there can only be properties
         },
